@@ -12,6 +12,12 @@ CHECKS = {
     'C01': ('3/C01', 'bounded-exhaustive enumeration of datasets x candidates x schemes against a pair-by-pair reference score',
             'Every dataset with <=4 elements/<=2 rankings (quick: DS(3,2), DS(2,3), DS(4,1)) and every complete or incomplete candidate is scored by the real library and compared with the literal definition; the positional base-64 scheme makes one equality decide all eight observable pair counters. Exhaustive within the bound, nothing sampled.',
             'small-scope hypothesis (n<=5, m<=5); dyadic penalties so float sums are exact; reference model trusted after its internal identities'),
+    'C02': ('3/C02', 'bounded-exhaustive enumeration of datasets x schemes; table compared entry-wise with a reference built from three 2-element reference scores per pair; all complete candidates summed',
+            'Every dataset of DS(3,2), DS(2,3), DS(4,1) (quick; DS(4,2), DS(3,3), DS(5,1) thorough) under 16 schemes: both matrix views, the cost table from both, mirror identities, and for every complete candidate the selected entries against the definition and against the library score.',
+            'small-scope hypothesis; unit ranking weights; dyadic penalties'),
+    'C19': ('3/C19', 'exhaustive enumeration of all 12-tuples over small value grids, all ordered pairs of the 2916 valid schemes over {0,1,2}, all scalings; exact rational oracle',
+            'All 3^12 tuples over {0,1,2} and {-1,0,1} as ints and floats plus malformed shapes decide the validation clause with the documented exception precedence; all 8.5M ordered pairs decide both equivalence tests and the nickname; scaling and score homogeneity are enumerated over all valid schemes / DS(3,2) x all candidates.',
+            'penalty grid {0,.5,1,2,3}; bool/nan/inf entries not judged'),
 }
 
 PENDING = {}
